@@ -158,6 +158,7 @@ fn check_c24(plan: &Plan, out: &Outcome) -> Verdict {
         let mut last_release_all: u64 = 0;
         // sticky owner per reader and key (for ties)
         let mut sticky: [BTreeMap<u8, u32>; 2] = [BTreeMap::new(), BTreeMap::new()];
+        let mut boundary_uids: Vec<u32> = vec![];
         let mut i = 0;
         while i < recs.len() {
             let rec = recs[i];
@@ -191,6 +192,12 @@ fn check_c24(plan: &Plan, out: &Outcome) -> Verdict {
                                         .collect()
                                 })
                                 .unwrap_or_default();
+                            // another writer of this instance is about to miss (or has just missed) its deadline: whether a
+                            // reader has already noticed depends on when that reader received the last sample and when its
+                            // worker looks, so two readers may legitimately differ on this one sample
+                            if d_ns.is_some_and(|d| reg.get(key).is_some_and(|m| m.iter().any(|(o, last)| *o != *w && !gone.contains(o) && { let age = t.saturating_sub(*last); age >= d * 8 / 10 && age <= d * 12 / 10 + 60_000_000 }))) {
+                                boundary_uids.push(*uid);
+                            }
                             let sw = strength(*w);
                             let stronger_certain = others.iter().any(|o| o.1 > sw && o.2);
                             let stronger_possible = others.iter().any(|o| o.1 > sw);
@@ -272,6 +279,8 @@ fn check_c24(plan: &Plan, out: &Outcome) -> Verdict {
         // both readers saw every sample: they must agree
         let mut a = presented[0].clone();
         let mut b = presented[1].clone();
+        a.retain(|u| !boundary_uids.contains(u));
+        b.retain(|u| !boundary_uids.contains(u));
         a.sort();
         b.sort();
         if a != b {
